@@ -102,6 +102,9 @@ def check(chk, repo, tier):
     chk.floor("delimited literal forms", len(fr.delimited), 3)
     chk.floor("prefix literal forms", len(fr.prefix1) + len(fr.prefix2), 3)
     chk.floor("comment heads", len(fr.comment), 1)
+    # the same text in two token kinds must not share remembered code
+    from .c06 import memo_keys  # noqa: PLC0415
+    memo_keys(chk, repo, "C03")
     n = law_payload_opaque(chk, lp, fr, "C03.lexer-payload-opaque", LF)
     law_total(chk, lp, "C03.lexer-total", LF)
     chk.unit("lexer probes (payload law)", n)
